@@ -116,6 +116,22 @@ pub fn classify_panic(msg: &str) -> String {
   }
 }
 
+/// the subscription a subscribing harness task produces (C19)
+pub struct FlagSub {
+  sh: Arc<Shared>,
+  id: i64,
+  closed: Arc<std::sync::atomic::AtomicBool>,
+}
+impl Subscription for FlagSub {
+  fn unsubscribe(self) {
+    self.closed.store(true, std::sync::atomic::Ordering::SeqCst);
+    self.sh.record(100 + self.id, 'U', Val::U);
+  }
+  fn is_closed(&self) -> bool {
+    self.closed.load(std::sync::atomic::Ordering::SeqCst)
+  }
+}
+
 pub struct Cfg {
   pub nsubj: usize,
   pub nbeh: usize,
@@ -169,6 +185,10 @@ macro_rules! runner {
       /// published observables: (the connectable until connect() consumes it, a fork of its subject)
       pub published: std::collections::HashMap<usize, (Option<ConnectableObservable<$bx, $subject>>, $subject)>,
       pub multis: std::collections::HashMap<usize, $multi>,
+      /// to_future / to_stream results by handle index
+      pub futs: std::collections::HashMap<usize, rxrust::ops::future::ObservableFuture<Val, Val>>,
+      pub streams: std::collections::HashMap<usize, rxrust::ops::stream::ObservableStream<Val, Val>>,
+      pub statuses: Vec<Arc<rxrust::ops::complete_status::CompleteStatus>>,
     }
 
     impl $name {
@@ -190,6 +210,9 @@ macro_rules! runner {
           built: Default::default(),
           published: Default::default(),
           multis: Default::default(),
+          futs: Default::default(),
+          streams: Default::default(),
+          statuses: vec![],
         }
       }
 
@@ -230,6 +253,22 @@ macro_rules! runner {
                 .group_by::<_, _, $subject>(move |v: &Val| keyf(a, v))
                 .actual_subscribe(gp);
               <$boxsub>::new(u)
+            } else if self.env.prog[root - 1].op == "to_future" {
+              let _ = sh.new_probe_id();
+              let src = self.built(self.env.prog[root - 1].s1);
+              self.futs.insert(self.handles.len(), src.to_future());
+              <$boxsub>::new(())
+            } else if self.env.prog[root - 1].op == "to_stream" {
+              let _ = sh.new_probe_id();
+              let src = self.built(self.env.prog[root - 1].s1);
+              self.streams.insert(self.handles.len(), src.to_stream());
+              <$boxsub>::new(())
+            } else if self.env.prog[root - 1].op == "status" {
+              let src = self.built(self.env.prog[root - 1].s1);
+              let (op, status) = src.complete_status();
+              self.statuses.push(status);
+              let p: Probe<$react> = Probe::new(&sh, None);
+              <$boxsub>::new(op.actual_subscribe(p))
             } else if self.env.prog[root - 1].op == "publish" {
               let subj = self.publish_of(root).1.clone();
               let react: Option<$react> = if s.b == 3 {
@@ -330,6 +369,36 @@ macro_rules! runner {
             self.env.subjects[(s.a - 1) as usize].clone().unsubscribe();
             Val::U
           }
+          "fpoll" => {
+            use futures::Stream;
+            use std::future::Future;
+            use std::pin::Pin;
+            use std::task::{Context, Poll};
+            let waker = futures::task::noop_waker();
+            let mut cx = Context::from_waker(&waker);
+            let idx = (s.a - 1) as usize;
+            if let Some(f) = self.futs.get_mut(&idx) {
+              match Pin::new(f).poll(&mut cx) {
+                Poll::Pending => Val::None,
+                Poll::Ready(Ok(Ok(v))) => Val::Some(Box::new(v)),
+                Poll::Ready(Ok(Err(e))) => e,
+                Poll::Ready(Err(rxrust::ops::future::ObservableError::Empty)) => Val::Tag("empty".into()),
+                Poll::Ready(Err(rxrust::ops::future::ObservableError::MultipleValues)) => Val::Tag("multi".into()),
+              }
+            } else {
+              let st = self.streams.get_mut(&idx).expect("fpoll: not a conversion handle");
+              match Pin::new(st).poll_next(&mut cx) {
+                Poll::Pending => Val::None,
+                Poll::Ready(Some(Ok(v))) => Val::Some(Box::new(v)),
+                Poll::Ready(Some(Err(e))) => e,
+                Poll::Ready(None) => Val::Tag("end".into()),
+              }
+            }
+          }
+          "stq" => {
+            let st = &self.statuses[(s.a - 1) as usize];
+            Val::I(if st.is_completed() { 1 } else if st.error_occur() { 2 } else { 0 })
+          }
           "build" => {
             let _ = self.built(s.a as usize);
             Val::U
@@ -356,6 +425,37 @@ macro_rules! runner {
           "mappend" => {
             let child = self.handles[(s.b - 1) as usize].take().expect("mappend: child handle consumed");
             self.multis.get_mut(&((s.a - 1) as usize)).expect("mappend: not a composite").append(child);
+            Val::U
+          }
+          "tsched" => {
+            use rxrust::scheduler::{NormalReturn, OnceTask, RepeatTask, SubscribeReturn};
+            let id = crate::vsched::task_count() as i64 + 1;
+            let delay = if s.b >= 0 { Some(crate::vsched::dur(s.b)) } else { None };
+            let sched = crate::vsched::VSched;
+            let h: $boxsub = match s.a {
+              1 => {
+                fn once((sh, id): (Arc<Shared>, i64)) -> NormalReturn<()> {
+                  sh.record(100 + id, 'R', Val::I(0));
+                  NormalReturn::new(())
+                }
+                <$boxsub>::new(sched.schedule(OnceTask::new(once, (sh.clone(), id)), delay))
+              }
+              2 => {
+                fn rep(a: &mut (Arc<Shared>, i64), seq: usize) -> bool {
+                  a.0.record(100 + a.1, 'R', Val::I(seq as i64));
+                  seq < 2
+                }
+                <$boxsub>::new(sched.schedule(RepeatTask::new(crate::vsched::dur(s.b), rep, (sh.clone(), id)), None))
+              }
+              _ => {
+                fn subscribing((sh, id): (Arc<Shared>, i64)) -> SubscribeReturn<FlagSub> {
+                  sh.record(100 + id, 'R', Val::I(0));
+                  SubscribeReturn::new(FlagSub { sh, id, closed: Arc::new(std::sync::atomic::AtomicBool::new(false)) })
+                }
+                <$boxsub>::new(sched.schedule(OnceTask::new(subscribing, (sh.clone(), id)), delay))
+              }
+            };
+            self.handles.push(Some(h));
             Val::U
           }
           "adv" => {
